@@ -44,12 +44,14 @@ func init() { core.Register(P{}) }
 
 func (P) ID() string { return "C14" }
 func (P) Rule() string {
-	return "case = one generated header multiset (canonical keys as net/http parses them; 0-3 Connection lines with 0-4 tokens each in random " +
-		"case/spacing naming present, absent, fixed hop-by-hop and stamped headers, empty tokens; 0-3 pre-existing Via lines with and without this " +
-		"instance and near misses; pre-existing single/multi-line/empty X-Forwarded-*; Content-Length / Transfer-Encoding combinations) sent through " +
-		"the real stack (stackreq + stackres on the same context) and through each member modifier alone, or a batch of stdlib-model ops " +
-		"(CanonicalHeaderKey, Header Get/Set/Add/Del/Values, net.SplitHostPort, the Via whitespace split), or an e2e exchange through a real proxy " +
-		"using the stack; distinct by hash of the op list; non-trivial when the stack changed the header set (something removed) and kept at least one header"
+	return "case = one generated header multiset (keys as net/http parses them and, in 1 of 6, keys a modifier wrote in another spelling; 0-3 Connection " +
+		"lines with 0-4 tokens each in random case/spacing - also folded lines, bare CR/LF, VT, FF - naming present, absent, fixed hop-by-hop and stamped " +
+		"headers, empty tokens; Proxy-Connection token lists, Keep-Alive parameters; 0-3 pre-existing Via lines with and without this instance and near " +
+		"misses; pre-existing single/multi-line/empty X-Forwarded-*; Content-Length / Transfer-Encoding combinations) sent through the real stack " +
+		"(stackreq + stackres on the same context) and through each member modifier alone, or a batch of stdlib-model ops (CanonicalHeaderKey, Header " +
+		"Get/Set/Add/Del/Values, net.SplitHostPort, the Via whitespace split), or one e2e exchange through a real proxy using the stack (raw request with " +
+		"names in any case, obs-folded values, optional white space; scripted origin response) compared with the model's exchange; distinct by hash of " +
+		"the op list; non-trivial when the stack changed the header set (something removed) and kept at least one header"
 }
 
 func (P) Nontrivial(ops []string, impl []string) bool {
